@@ -164,6 +164,8 @@ impl<M: Manager> Drop for UnreadyObject<'_, M> {
     fn drop(&mut self) {
         if let Some(mut inner) = self.inner.take() {
             self.pool.slots.lock().unwrap().size -= 1;
+            #[cfg(deadpool_verif)]
+            crate::verif::point("unready.size_dec");
             self.pool.manager.detach(&mut inner.obj);
         }
     }
@@ -323,6 +325,8 @@ impl<M: Manager, W: From<Object<M>>> Pool<M, W> {
         let users_guard = DropGuard(|| {
             let _ = self.inner.users.fetch_sub(1, Ordering::Relaxed);
         });
+        #[cfg(deadpool_verif)]
+        crate::verif::point("get.entered");
 
         let non_blocking = match timeouts.wait {
             Some(t) => t.as_nanos() == 0,
@@ -349,12 +353,16 @@ impl<M: Manager, W: From<Object<M>>> Pool<M, W> {
             )
             .await?
         };
+        #[cfg(deadpool_verif)]
+        crate::verif::point("get.slot");
 
         let inner_obj = loop {
             let inner_obj = match self.inner.config.queue_mode {
                 QueueMode::Fifo => self.inner.slots.lock().unwrap().vec.pop_front(),
                 QueueMode::Lifo => self.inner.slots.lock().unwrap().vec.pop_back(),
             };
+            #[cfg(deadpool_verif)]
+            crate::verif::point("get.popped");
             let inner_obj = if let Some(inner_obj) = inner_obj {
                 self.try_recycle(timeouts, inner_obj).await?
             } else {
@@ -366,6 +374,8 @@ impl<M: Manager, W: From<Object<M>>> Pool<M, W> {
         };
 
         users_guard.disarm();
+        #[cfg(deadpool_verif)]
+        crate::verif::point("get.disarmed");
         permit.forget();
 
         Ok(Object {
@@ -438,8 +448,12 @@ impl<M: Manager, W: From<Object<M>>> Pool<M, W> {
             }),
             pool: &self.inner,
         };
+        #[cfg(deadpool_verif)]
+        crate::verif::point("create.created");
 
         self.inner.slots.lock().unwrap().size += 1;
+        #[cfg(deadpool_verif)]
+        crate::verif::point("create.counted");
 
         // Apply post_create hooks
         if let Err(e) = self
@@ -466,6 +480,8 @@ impl<M: Manager, W: From<Object<M>>> Pool<M, W> {
         if self.inner.semaphore.is_closed() {
             return;
         }
+        #[cfg(deadpool_verif)]
+        crate::verif::point("resize.open");
         let mut slots = self.inner.slots.lock().unwrap();
         let old_max_size = slots.max_size;
         slots.max_size = max_size;
@@ -524,6 +540,8 @@ impl<M: Manager, W: From<Object<M>>> Pool<M, W> {
         mut predicate: impl FnMut(&M::Type, Metrics) -> bool,
     ) -> RetainResult<M::Type> {
         let mut removed = Vec::with_capacity(self.status().size);
+        #[cfg(deadpool_verif)]
+        crate::verif::point("retain.sized");
         let mut guard = self.inner.slots.lock().unwrap();
         let mut i = 0;
         // This code can be simplified once `Vec::extract_if` lands in stable Rust.
@@ -558,6 +576,8 @@ impl<M: Manager, W: From<Object<M>>> Pool<M, W> {
     /// This operation resizes the pool to 0.
     pub fn close(&self) {
         self.resize(0);
+        #[cfg(deadpool_verif)]
+        crate::verif::point("close.resized");
         self.inner.semaphore.close();
     }
 
@@ -588,6 +608,31 @@ impl<M: Manager, W: From<Object<M>>> Pool<M, W> {
     #[must_use]
     pub fn manager(&self) -> &M {
         &self.inner.manager
+    }
+
+    /// Read-only snapshot of the internal state (verification builds only).
+    #[cfg(deadpool_verif)]
+    #[allow(missing_docs)]
+    pub fn verif_snapshot(&self) -> crate::verif::ManagedSnapshot {
+        let slots = self.inner.slots.lock().unwrap();
+        crate::verif::ManagedSnapshot {
+            permits: self.inner.semaphore.available_permits(),
+            closed: self.inner.semaphore.is_closed(),
+            size: slots.size,
+            max_size: slots.max_size,
+            users: self.inner.users.load(Ordering::Relaxed),
+            idle: slots.vec.len(),
+        }
+    }
+
+    /// Visits the idle objects in queue order (verification builds only).
+    #[cfg(deadpool_verif)]
+    #[allow(missing_docs)]
+    pub fn verif_visit_idle(&self, mut f: impl FnMut(&M::Type, &Metrics)) {
+        let slots = self.inner.slots.lock().unwrap();
+        for obj in slots.vec.iter() {
+            f(&obj.obj, &obj.metrics);
+        }
     }
 }
 
@@ -633,23 +678,33 @@ where
 impl<M: Manager> PoolInner<M> {
     fn return_object(&self, mut inner: ObjectInner<M>) {
         let _ = self.users.fetch_sub(1, Ordering::Relaxed);
+        #[cfg(deadpool_verif)]
+        crate::verif::point("return.users_dec");
         let mut slots = self.slots.lock().unwrap();
         if slots.size <= slots.max_size {
             slots.vec.push_back(inner);
             drop(slots);
+            #[cfg(deadpool_verif)]
+            crate::verif::point("return.unlocked");
             self.semaphore.add_permits(1);
         } else {
             slots.size -= 1;
             drop(slots);
+            #[cfg(deadpool_verif)]
+            crate::verif::point("return.surplus");
             self.manager.detach(&mut inner.obj);
         }
     }
     fn detach_object(&self, obj: &mut M::Type) {
         let _ = self.users.fetch_sub(1, Ordering::Relaxed);
+        #[cfg(deadpool_verif)]
+        crate::verif::point("detach.users_dec");
         let mut slots = self.slots.lock().unwrap();
         let add_permits = slots.size <= slots.max_size;
         slots.size -= 1;
         drop(slots);
+        #[cfg(deadpool_verif)]
+        crate::verif::point("detach.unlocked");
         if add_permits {
             self.semaphore.add_permits(1);
         }
